@@ -7,6 +7,7 @@ package main
 import (
 	"fmt"
 	"math/bits"
+	"sort"
 	"strings"
 )
 
@@ -557,6 +558,12 @@ func (c *Ctx) Bin(op Op, x, y *Term) *Term {
 		if x == y {
 			return x
 		}
+		if x.op == OOr || y.op == OOr {
+			return c.orChain(w, x, y)
+		}
+		if orLess(y, x) {
+			x, y = y, x
+		}
 	case OXor:
 		if y.op == OConst && y.c == 0 {
 			return x
@@ -571,6 +578,15 @@ func (c *Ctx) Bin(op Op, x, y *Term) *Term {
 		if y.op == OConst {
 			if y.c == 0 {
 				return x
+			}
+			if op == OShl && y.c < uint64(w) {
+				if x.op == OOr {
+					// distribute so that byte-assembly chains reach one canonical form
+					return c.Bin(OOr, c.Bin(OShl, x.a[0], y), c.Bin(OShl, x.a[1], y))
+				}
+				if x.op == OShl && x.a[1].op == OConst && x.a[1].c+y.c < uint64(w) {
+					return c.Bin(OShl, x.a[0], c.Const(w, x.a[1].c+y.c))
+				}
 			}
 			if y.c >= uint64(w) && op != OAShr {
 				return c.Const(w, 0)
@@ -692,6 +708,15 @@ func (c *Ctx) ZExt(x *Term, w int) *Term {
 	}
 	if x.op == OZExt {
 		return c.ZExt(x.a[0], w)
+	}
+	switch x.op {
+	case OOr, OXor:
+		// canonical form: extension innermost
+		return c.Bin(x.op, c.ZExt(x.a[0], w), c.ZExt(x.a[1], w))
+	case OShl:
+		if x.a[1].op == OConst && bits.Len64(x.a[0].pm)+int(x.a[1].c) <= x.w {
+			return c.Bin(OShl, c.ZExt(x.a[0], w), c.Const(w, x.a[1].c))
+		}
 	}
 	return c.mk(&Term{op: OZExt, w: w, a: []*Term{x}})
 }
@@ -893,6 +918,14 @@ func (c *Ctx) Cmp(op Op, x, y *Term) *Term {
 		}
 		if x.op == OConst && x.c >= y.ub {
 			return c.False
+		}
+		if x.op == OConst && x.c == 0 {
+			// 0 < y  <=>  y != 0
+			return c.BNot(c.Eq(y, x))
+		}
+		if y.op == OConst && y.c == 1 {
+			// x < 1  <=>  x == 0
+			return c.Eq(x, c.Const(w, 0))
 		}
 	case OUle:
 		if x.ub <= y.lb {
@@ -1129,4 +1162,98 @@ func termStr(t *Term, depth int) string {
 	}
 	sb.WriteString(")")
 	return sb.String()
+}
+
+// rebuild constructs the term with t's operator over new arguments, going
+// through the simplifying constructors.
+func (c *Ctx) rebuild(t *Term, a []*Term) *Term {
+	switch t.op {
+	case ONot:
+		return c.Not(a[0])
+	case ONeg:
+		return c.Neg(a[0])
+	case OConcat:
+		return c.Concat(a[0], a[1])
+	case OExtract:
+		return c.Extract(a[0], int(t.c>>8), int(t.c&0xff))
+	case OZExt:
+		return c.ZExt(a[0], t.w)
+	case OSExt:
+		return c.SExt(a[0], t.w)
+	case OEq:
+		return c.Eq(a[0], a[1])
+	case OUlt, OUle, OSlt, OSle:
+		return c.Cmp(t.op, a[0], a[1])
+	case OBNot:
+		return c.BNot(a[0])
+	case OBAnd:
+		return c.BAnd(a[0], a[1])
+	case OBOr:
+		return c.BOr(a[0], a[1])
+	case OIte:
+		return c.Ite(a[0], a[1], a[2])
+	case OUF:
+		return c.UF(t.name, t.w, a...)
+	}
+	return c.Bin(t.op, a[0], a[1])
+}
+
+// orLess orders the operands of an or-chain: constants last, otherwise by the
+// lowest bit that may be set, then by creation order.
+func orLess(a, b *Term) bool {
+	if a.op == OConst || b.op == OConst {
+		return a.op != OConst && b.op == OConst
+	}
+	ta, tb := bits.TrailingZeros64(a.pm), bits.TrailingZeros64(b.pm)
+	if ta != tb {
+		return ta < tb
+	}
+	return a.id < b.id
+}
+
+// orChain flattens nested ors, sorts the operands canonically and rebuilds a
+// left-associated chain.
+func (c *Ctx) orChain(w int, x, y *Term) *Term {
+	var leaves []*Term
+	var walk func(t *Term)
+	walk = func(t *Term) {
+		if t.op == OOr {
+			walk(t.a[0])
+			walk(t.a[1])
+			return
+		}
+		leaves = append(leaves, t)
+	}
+	walk(x)
+	walk(y)
+	// merge constants, drop duplicates
+	var k uint64
+	uniq := leaves[:0]
+	seen := map[*Term]bool{}
+	for _, l := range leaves {
+		if l.op == OConst {
+			k |= l.c
+			continue
+		}
+		if !seen[l] {
+			seen[l] = true
+			uniq = append(uniq, l)
+		}
+	}
+	leaves = uniq
+	if k == mask(w) {
+		return c.Const(w, k)
+	}
+	sort.SliceStable(leaves, func(i, j int) bool { return orLess(leaves[i], leaves[j]) })
+	if k != 0 {
+		leaves = append(leaves, c.Const(w, k))
+	}
+	if len(leaves) == 0 {
+		return c.Const(w, 0)
+	}
+	r := leaves[0]
+	for _, l := range leaves[1:] {
+		r = c.mk(&Term{op: OOr, w: w, a: []*Term{r, l}})
+	}
+	return r
 }
